@@ -194,6 +194,57 @@ def _easy_swamps_scored(case):
     return scored > 0 and (s["ep"] + s["en"]) >= scored * 2**53
 
 
+# ---------------------------------------------------------------------- score types wider than a double
+@st.composite
+def _wide_cases(draw):
+    n, m = draw(st.integers(0, 5)), draw(st.integers(0, 5))
+    return dict(kind=draw(st.sampled_from(["int64>2^53", "int64-top", "int64-bottom", "uint64", "longdouble"])),
+                kpos=draw(st.lists(st.integers(0, 12), min_size=n, max_size=n)),
+                kneg=draw(st.lists(st.integers(0, 12), min_size=m, max_size=m)),
+                ep=draw(st.sampled_from([0, 0, 3])), en=draw(st.sampled_from([0, 0, 2])))
+
+
+def check_wide(case):
+    """64-bit integer scores beyond 2^53 and at both ends of the int64 range, uint64 scores beyond 2^63 and
+    long-double scores 2^-60 apart: the threshold for r = 0 / 1 must put the library's own rate at the extreme."""
+    from score_analysis import Scores
+
+    kind = case["kind"]
+    if kind == "longdouble" and np.finfo(np.longdouble).nmant <= 52:
+        return dict(nontrivial=False, labels=["no-extended-precision"])
+
+    def arr(ks):
+        if kind == "int64>2^53":
+            return np.int64(2**53 + 1) + np.asarray(ks, dtype=np.int64)
+        if kind == "int64-top":
+            return np.int64(2**63 - 1) - np.asarray(ks, dtype=np.int64)
+        if kind == "int64-bottom":
+            return np.int64(-2**63) + np.asarray(ks, dtype=np.int64)
+        if kind == "uint64":
+            return np.uint64(2**63) + np.asarray(ks, dtype=np.uint64)
+        return np.longdouble(1) + (np.asarray(ks, dtype=np.longdouble) + 1) * np.longdouble(2) ** -60
+
+    pos, neg = arr(case["kpos"]), arr(case["kneg"])
+    n, m, ep, en = len(pos), len(neg), case["ep"], case["en"]
+    done = 0
+    for sc, ec in CONFIGS:
+        o = Scores(pos, neg, nb_easy_pos=ep, nb_easy_neg=en, score_class=sc, equal_class=ec)
+        for mt in METRICS:
+            if not relevant_scores(mt, list(pos), list(neg)):
+                continue
+            lo, hi = (float(v) for v in achievable_range(mt, n, m, ep, en))
+            for r, want in ((0.0, lo), (1.0, hi), (-0.25, lo), (1.5, hi)):
+                for method in ("linear", "lower", "higher"):
+                    t = getattr(o, "threshold_at_" + mt)(r, method=method)
+                    got = float(getattr(o, mt)(t))
+                    done += 1
+                    require(got == want, "ext:wide-type",
+                            lambda: f"{kind} scores pos-offsets={case['kpos']} neg-offsets={case['kneg']} ep={ep} en={en} "
+                                    f"config={sc}/{ec}: threshold_at_{mt}({r}, method={method!r}) = {t!r}, where {mt} is "
+                                    f"{got!r}; the extreme is {want!r}")
+    return dict(nontrivial=done > 0 and len(set(case["kpos"]) | set(case["kneg"])) >= 2, labels=[f"wide:{kind}"])
+
+
 PROP = Prop(
     id="C03",
     rule=("Hypothesis: score sets (ties, tie-free, floats |x|<=1e6, int dtype, single-sample "
@@ -209,6 +260,8 @@ PROP = Prop(
     clauses=[
         Clause("extremes", check, strategy=_cases(), quick=250, thorough=4800, quick_shards=4,
                min_nontrivial=100, doc="random score sets, extreme targets, all methods"),
+        Clause("wide_types", check_wide, strategy=_wide_cases(), quick=120, thorough=2000, quick_shards=2,
+               min_nontrivial=40, doc="extremes for int64/uint64 scores beyond 2^53 / at the ends of the range and long doubles"),
         Clause("sizes", check_sizes, kind="enum", cases=_enum, quick_shards=4, shards=16,
                min_nontrivial=100,
                doc="all (N, nb_easy) size pairs up to the bound (rounding-sensitive rescaling)"),
